@@ -495,9 +495,15 @@ where
         if let Some(ref mut data) = self.writing {
             while data.has_remaining() {
                 let stream = Pin::new(&mut self.stream);
-                let written = ready!(stream.poll_write(cx, data.chunk()))
-                    .map_err(convert_write_error_to_stream_error)?;
-                data.advance(written);
+                match ready!(stream.poll_write(cx, data.chunk())) {
+                    Ok(written) => data.advance(written),
+                    Err(err) => {
+                        // the data can not be written anymore: give it up, so that the
+                        // next send_data is not mistaken for an overlapping write
+                        self.writing = None;
+                        return Poll::Ready(Err(convert_write_error_to_stream_error(err)));
+                    }
+                }
             }
         }
         // all data is written
